@@ -161,6 +161,29 @@ def run_tlc(
     return res
 
 
+def run_apalache(module: str, args: t.Sequence[str], wd: str, *, timeout: int = 600, spec_dir: str = SPEC, tag: str = "") -> t.Tuple[bool, float, str]:
+    """apalache-mc check <args> module.tla; returns (no_error, wall, output).  Raises MachineryError when Apalache does
+    not reach a verdict (missing, timed out, parse / type error)."""
+    out_dir = os.path.join(wd, f"apa-{tag or module}-{int(time.time()*1000)%100000000}")
+    exe = shutil.which("apalache-mc") or "/opt/veriftools/apalache/bin/apalache-mc"
+    cmd = [exe, "check", *args, f"--out-dir={out_dir}", module + ".tla"]
+    e = dict(os.environ)
+    e.setdefault("JVM_ARGS", "-Xmx4g")
+    t0 = time.time()
+    try:
+        p = subprocess.run(cmd, cwd=spec_dir, env=e, stdout=subprocess.PIPE, stderr=subprocess.STDOUT, timeout=timeout)
+    except (subprocess.TimeoutExpired, OSError) as ex:
+        raise MachineryError(f"apalache-mc did not run to completion: {' '.join(cmd)}: {ex}") from ex
+    finally:
+        shutil.rmtree(out_dir, ignore_errors=True)
+    out = p.stdout.decode("utf-8", errors="replace")
+    if "The outcome is: NoError" in out and p.returncode == 0:
+        return True, time.time() - t0, out
+    if "The outcome is: Error" in out:
+        return False, time.time() - t0, out
+    raise MachineryError(f"apalache-mc reached no verdict ({module} {' '.join(args)}, rc={p.returncode}):\n" + "\n".join(out.splitlines()[-30:]))
+
+
 def run_tlc_parallel(jobs: t.Sequence[t.Dict[str, t.Any]], max_par: int = NCPU) -> t.List[TlcResult]:
     """Run several run_tlc(**job) invocations concurrently (threads; each is a JVM subprocess)."""
     from concurrent.futures import ThreadPoolExecutor
